@@ -95,6 +95,36 @@ public:
         for (auto& f : c.face_lst_) uf += f.is_used();
         return c.get_nb_of_nodes() == un && c.get_nb_of_faces() == uf;
     }
+    // Puts the cell into the state that a history of edge collapses leaves it in -- unused slots in the MIDDLE of the node and
+    // face lists, live elements after them -- without changing its geometry or connectivity: the faces of the first `k` face slots
+    // move to new slots at the end of the list, and (if `node_hole`) the node of slot 0 moves to a new slot at the end.
+    // Only the cell's own add_* / delete_* operations are used, so the edge index and the free queues stay consistent.
+    static void fragment(cell& c, unsigned k, bool node_hole) {
+        if (node_hole && !c.node_lst_.empty() && c.node_lst_[0].is_used()) {
+            node copy = c.node_lst_[0];
+            std::vector<unsigned> stash; stash.swap(c.free_node_queue_);
+            const unsigned nid = c.add_node(copy);                       // appended: the queue is empty
+            c.free_node_queue_.swap(stash);
+            for (size_t f = 0; f < c.face_lst_.size(); f++) {
+                if (!c.face_lst_[f].is_used() || !c.face_lst_[f].has_node(0)) continue;
+                face cp = c.face_lst_[f];
+                if (cp.n1_id_ == 0) cp.n1_id_ = nid;
+                if (cp.n2_id_ == 0) cp.n2_id_ = nid;
+                if (cp.n3_id_ == 0) cp.n3_id_ = nid;
+                c.delete_face((unsigned)f);
+                c.add_face(cp);                                          // re-uses slot f (last freed)
+            }
+            c.delete_node(0u);
+        }
+        for (unsigned i = 0; i < k && i < c.face_lst_.size(); i++) {
+            if (!c.face_lst_[i].is_used()) continue;
+            face cp = c.face_lst_[i];
+            c.delete_face(i);
+            std::vector<unsigned> stash; stash.swap(c.free_face_queue_);
+            c.add_face(cp);                                              // appended
+            c.free_face_queue_.swap(stash);
+        }
+    }
     // six times the signed volume given by the windings
     static double signed_vol6(cell& c) {
         double v = 0;
